@@ -953,7 +953,11 @@ class ReadCap16(StructFormat):
 def counts(rng, mode):
     if isinstance(mode, tuple) and mode[0] == "count":
         return mode[1]
-    v = gen.source_value(rng, 16, hi=300)  # counts the library's code mentions (exactly 16, 255, 256 ...)
+    # counts the library's code mentions (exactly 16, 32 ...); up to 300 only when the tree has literals the baseline lacks (the
+    # mutation workloads are quadratic in the count: 40- and 300-entry lists have phases of their own)
+    from vmon import srcdict
+
+    v = gen.source_value(rng, 16, hi=300 if srcdict.novel_small(300) else 48)
     if v is not None:
         return v
     return rng.choice([0, 1, 1, 2, 3, 5, 9, rng.randrange(0, 40)])
